@@ -350,6 +350,10 @@ def check_property(prop, tier, configs=None, only=None, keep=False, write_eviden
             if sec > 45:
                 print('SLOW: %.0fs %s [%s]' % (sec, ident, cf))
         SLOWEST[:] = [{'seconds': round(sec, 1), 'function': ident, 'configurations': cf} for sec, ident, cf in slow]
+        if os.environ.get('VERIF_TIMING'):
+            with open(os.environ['VERIF_TIMING'], 'w') as f:
+                json.dump(sorted(((round(ob.result.get('solver_s', 0), 1), ob.ident(), ','.join(ob.cfgs), ob.result.get('backend'), ob.result.get('verdict'))
+                                  for ob in obs if ob.result), reverse=True), f, indent=0)
         print('%s %s: %d functions under contract, %d CBMC obligations discharged, %d violations, %d known findings, %d undecided, %d canaries (%d bad), %.0fs' % (
             prop, tier, len(obs), n_discharged, len(viol_lines), len(known_hits), len(undecided), len(canaries), len(bad_canaries), wall))
         if write_evidence:
